@@ -122,6 +122,7 @@ CARRIERS = {
     "arrow": "(cb => cb(7))",
     "bound_function": "(function(cb){ return cb(7) }).bind(null)",
     "regex": "/b/g",
+    "regex_new": "new RegExp('b', 'g')",
     "accessor_literal": "{ get p(){ return this.cb(7) } }",
     "accessor_defined": "Object.defineProperty({}, 'p', { get: function(){ return this.cb(7) }, "
                         "set: function(v){ this.cb(v) } })",
@@ -139,6 +140,20 @@ USES = {
     "get": "(h.cb = CB, h.p)", "set": "(h.cb = CB, h.p = 1)", "call_method": "h.m(CB)", "concat": "(h.cb = CB, '' + h)",
     "call_regex": "h(/b/, CB)", "call_null": "h(null, CB)", "apply_null": "h(null, [CB])",
 }
+# a carried regex handed to the matcher by a later eval (no script callback involved): consumer x route.  The built-in
+# runs first, then the callback of the event is called by script code
+RX = "(function(cb){ var q = %s; return cb(7) })(CB)"
+USES.update({
+    "rx_test": RX % "h.test('abc')", "rx_exec": RX % "h.exec('abc')", "rx_match": RX % "'abc'.match(h)",
+    "rx_search": RX % "'abc'.search(h)", "rx_replace": RX % "'abc'.replace(h, 'x')",
+    "rx_replaceAll": RX % "'abc'.replaceAll(h, 'x')", "rx_split": RX % "'abc'.split(h)",
+    "rx_call_test": RX % "h.test.call(h, 'abc')", "rx_apply_test": RX % "h.test.apply(h, ['abc'])",
+    "rx_detached_test": RX % "(function(t){ return t('abc') })(h.test)",
+    "rx_detached_exec": RX % "(function(t){ return t('abc') })(h.exec)",
+    "rx_detached_split": RX % "(function(t){ return t(h) })('abc'.split)",
+    "rx_apply_split": RX % "'abc'.split.apply('abc', [h])", "rx_bind_split": RX % "'abc'.split.bind('abc')(h)",
+    "rx_apply_replace": RX % "'abc'.replace.apply('abc', [h, 'x'])", "rx_callback_test": RX % "['abc'].map(h.test)",
+})
 CARRY_SNIPPETS = {      # @U@ = the use with its callback; the callback first commits g = x
     "cv_use": ("var g; @U@", "function(v){ g = %(x)d; return v }"),
     "cv_catch": ("var g; var r = 1; try { @U@; r = 2 } catch (e) { r = 3 } r",
